@@ -2,10 +2,12 @@ package checks
 
 import (
 	"fmt"
+	"strings"
 
 	"saomc/engine"
 	"saomc/world"
 
+	markettypes "github.com/SaoNetwork/sao/x/market/types"
 	modeltypes "github.com/SaoNetwork/sao/x/model/types"
 	nodetypes "github.com/SaoNetwork/sao/x/node/types"
 	ordertypes "github.com/SaoNetwork/sao/x/order/types"
@@ -217,27 +219,177 @@ type LifeOracle struct {
 
 func NewLifeOracle(props map[string]bool) *LifeOracle { return &LifeOracle{Props: props} }
 
-type lifeGhost struct{}
+type lifeGhost struct {
+	Income  map[string]sdk.Dec // reference: integral of price x bytes x blocks per provider
+	Claimed map[string]sdk.Int // observed market->provider payouts
+	// RenewMig: renewal orders created while one of the listed shards was a pending migration (pins D20)
+	RenewMig map[uint64]bool
+	Pending   map[uint64]pendInfo // C05: orders without a completed shard
+	PaidUntil map[uint64]int64    // C11: open shards -> last paid height
+	ShardData map[uint64]string
+	MaxOrder, MaxShard   uint64 // C16
+	SeenOrder, SeenShard bool
+}
 
-func (g *lifeGhost) Clone() engine.Ghost { c := *g; return &c }
-func (g *lifeGhost) Bytes() []byte       { return nil }
-
-func (o *LifeOracle) InitGhost(w *world.World, ctx sdk.Context) engine.Ghost { return &lifeGhost{} }
-
-func (o *LifeOracle) Step(si *engine.StepInfo) []engine.Finding { return nil }
-
-func (o *LifeOracle) State(w *world.World, ctx sdk.Context, s *engine.State) []engine.Finding {
-	sn := TakeSnap(w, ctx)
-	var out []engine.Finding
-	if o.Props["C13"] {
-		out = append(out, C13State(sn)...)
+func (g *lifeGhost) Clone() engine.Ghost {
+	c := newLifeGhost()
+	c.MaxOrder, c.MaxShard, c.SeenOrder, c.SeenShard = g.MaxOrder, g.MaxShard, g.SeenOrder, g.SeenShard
+	for k, v := range g.Pending {
+		c.Pending[k] = v
 	}
-	if o.Props["C14"] {
-		out = append(out, C14State(sn)...)
+	for k, v := range g.PaidUntil {
+		c.PaidUntil[k] = v
+	}
+	for k, v := range g.ShardData {
+		c.ShardData[k] = v
+	}
+	for k := range g.RenewMig {
+		c.RenewMig[k] = true
+	}
+	for k, v := range g.Income {
+		c.Income[k] = v
+	}
+	for k, v := range g.Claimed {
+		c.Claimed[k] = v
+	}
+	return c
+}
+func (g *lifeGhost) Bytes() []byte {
+	var b strings.Builder
+	b.WriteString(ghostBytesDec(g.Income) + "|" + ghostBytesInt(g.Claimed) + "|" + fmt.Sprint(sortedU64(g.RenewMig)) + "|")
+	for _, k := range sortedU64(g.Pending) {
+		p := g.Pending[k]
+		fmt.Fprintf(&b, "%d:%s:%s:%x;", k, p.Payer, p.Amount, p.MetaBefore)
+	}
+	for _, k := range sortedU64(g.PaidUntil) {
+		fmt.Fprintf(&b, "%d>%d:%s;", k, g.PaidUntil[k], g.ShardData[k])
+	}
+	// MaxOrder/MaxShard are functions of the order/shard counters in the store: not part of the key
+	return []byte(b.String())
+}
+
+func (o *LifeOracle) InitGhost(w *world.World, ctx sdk.Context) engine.Ghost {
+	g := newLifeGhost()
+	// orders / shards that exist in a root were created by its setup
+	for _, o := range w.App.OrderKeeper.GetAllOrder(ctx) {
+		if o.Id > g.MaxOrder || !g.SeenOrder {
+			g.MaxOrder, g.SeenOrder = o.Id, true
+		}
+	}
+	sn := TakeSnap(w, ctx)
+	for _, sid := range sn.ShardIds {
+		sh := sn.Shards[sid]
+		if sid > g.MaxShard || !g.SeenShard {
+			g.MaxShard, g.SeenShard = sid, true
+		}
+		if sh.Status == ordertypes.ShardCompleted {
+			end := int64(sh.CreatedAt + sh.Duration)
+			for _, r := range sh.RenewInfos {
+				end += int64(r.Duration)
+			}
+			g.PaidUntil[sid] = end
+			if o, ok := sn.Orders[sh.OrderId]; ok {
+				g.ShardData[sid] = o.DataId
+			}
+		}
+	}
+	return g
+}
+
+func newLifeGhost() *lifeGhost {
+	return &lifeGhost{Income: map[string]sdk.Dec{}, Claimed: map[string]sdk.Int{}, RenewMig: map[uint64]bool{},
+		Pending: map[uint64]pendInfo{}, PaidUntil: map[uint64]int64{}, ShardData: map[uint64]string{}}
+}
+
+func (o *LifeOracle) Step(si *engine.StepInfo) []engine.Finding {
+	var out []engine.Finding
+	if o.Props["C06"] {
+		out = append(out, C06Step(si)...)
+	}
+	if si.Post == nil {
+		return out
+	}
+	w := si.W
+	pre, post := snapOf(w, si.PreCtx, si.Pre), snapOf(w, si.PostCtx, si.Post)
+	lp, lq := ledgerOf(w, si.PreCtx, si.Pre), ledgerOf(w, si.PostCtx, si.Post)
+	g := si.Post.G.(*lifeGhost)
+	if si.Op.EndTo > 0 {
+		refIncomeAdvance(pre, g, pre.H, post.H)
+	}
+	for _, oid := range post.OrderIds {
+		if _, old := pre.Orders[oid]; !old && post.Orders[oid].Operation == 3 {
+			for _, sid := range post.Orders[oid].Shards {
+				if sh, ok := post.Shards[sid]; ok && sh.Status == ordertypes.ShardMigrating {
+					g.RenewMig[oid] = true
+				}
+			}
+		}
+	}
+	for oid := range g.RenewMig {
+		if _, ok := post.Orders[oid]; !ok {
+			delete(g.RenewMig, oid)
+		}
+	}
+	market := world.ModAddr(markettypes.ModuleName).String()
+	for _, f := range si.Res.Flows {
+		if f.From == market && isModule(f.To) == "" && si.Op.Kind == "claim" {
+			if v, ok := g.Claimed[f.To]; ok {
+				g.Claimed[f.To] = v.Add(f.Amt)
+			} else {
+				g.Claimed[f.To] = f.Amt
+			}
+		}
+	}
+	if o.Props["C04"] {
+		out = append(out, C04Step(si, pre, post, lp, lq)...)
+	}
+	if f := C05Step(si, pre, post, g); o.Props["C05"] {
+		out = append(out, f...)
+	}
+	if f := C11Step(si, pre, post, g); o.Props["C11"] {
+		out = append(out, f...)
+	}
+	if o.Props["C12"] {
+		out = append(out, C12Step(si, pre, post)...)
+	}
+	if f := C16Step(si, pre, post, g); o.Props["C16"] {
+		out = append(out, f...)
+	}
+	if o.Props["C07"] {
+		out = append(out, C07Step(si, pre, post, lp, lq)...)
 	}
 	return out
 }
 
+func (o *LifeOracle) State(w *world.World, ctx sdk.Context, s *engine.State) []engine.Finding {
+	sn := snapOf(w, ctx, s)
+	var out []engine.Finding
+	if o.Props["C13"] {
+		out = append(out, C13State(sn, s.G.(*lifeGhost))...)
+	}
+	if o.Props["C14"] {
+		out = append(out, C14State(sn)...)
+	}
+	if o.Props["C04"] {
+		out = append(out, C04State(ledgerOf(w, ctx, s), s.G.(*lifeGhost))...)
+	}
+	if o.Props["C06"] {
+		out = append(out, C06State(ledgerOf(w, ctx, s))...)
+	}
+	if o.Props["C07"] {
+		out = append(out, C07State(sn)...)
+	}
+	if o.Props["C11"] {
+		out = append(out, C11State(sn, s.G.(*lifeGhost))...)
+	}
+	if o.Props["C12"] {
+		out = append(out, C12State(sn)...)
+	}
+	if o.Props["C16"] {
+		out = append(out, C16State(sn)...)
+	}
+	return out
+}
 func (o *LifeOracle) NonTrivial(w *world.World, ctx sdk.Context, s *engine.State) bool {
 	// a state is non-trivial for the lifecycle family if at least one shard has been completed in it
 	for _, sh := range w.App.OrderKeeper.GetAllShard(ctx) {
